@@ -33,12 +33,12 @@ type CV struct {
 }
 
 type modelReader struct {
-	o    *Obligation
-	solv *Solvers
+	o        *Obligation
+	solv     *Solvers
 	pins     []Term
 	deadline time.Time
-	n    int
-	err  error
+	n        int
+	err      error
 }
 
 var getValueRe = regexp.MustCompile(`(?s)^\s*\(\((.*)\)\)\s*$`)
